@@ -203,7 +203,10 @@ PROPS = {
         "vx_search": {"bin": "c02_search_builder_sequences", "crate": "replay", "release": True,
                       "what": "22621 sequences of at most 4 answer pushes (three owner names sharing suffixes; unrestricted or under a push limit "
                               "that makes the push fail after 1, 5 or 12 octets) x {no compressor, Static-, Tree-, HashCompressor}: the message "
-                              "reads back as exactly the successful pushes, a failed push leaves the octets alone -- on the real crate"},
+                              "reads back as exactly the successful pushes, a failed push leaves the octets alone; and every ordered triple out of 16 names "
+                              "chosen for their shape (a label run that repeats at once or with period two, label-wise prefixes and suffixes of one "
+                              "another, other letter case, one label, the root, 63-octet labels) as owners and exchanges of MX records: the message "
+                              "parses and gives the names back under every compressor -- on the real crate"},
         "kani": [
             {"group": "g0", "name": "c02_header_counts_inc_total", "kind": "complete", "tier": "quick",
              "what": "HeaderCounts::inc_{qd,an,ns,ar}count on every 12-octet header: exact increment, CountOverflow exactly at 0xFFFF, "
